@@ -88,6 +88,8 @@ ATOMS = {
     "fstring_dict": dict(codes=[], enable=["use_fstrings"], lines=["print(\"%(a)s {n}\" % {{\"a\": p}})"], simple=True),
     "fstring_repr": dict(codes=[], enable=["use_fstrings"], lines=["print(\"%r and %s {n}\" % (q, p))"], simple=True),
     "fstring_braces": dict(codes=[], enable=["use_fstrings"], lines=["print(\"{{%s}} {n}\" % q)"], simple=True),
+    "fstring_single_tuple_name": dict(codes=[], enable=["use_fstrings"], lines=["single_{n} = (p,)", "print(\"[%s] {n}\" % single_{n})", "print(\"<%s> {n}\" % pair)"], simple=False),
+    "fstring_float_d": dict(codes=[], enable=["use_fstrings"], lines=["ratio_{n} = p / 2", "print(\"%d items {n}\" % ratio_{n})", "print(\"%s|%s\" % (ratio_{n}, ratio_{n}))"], simple=False),
     "fstring_attr": dict(codes=[], enable=["use_fstrings"], lines=["print(\"%s/%s {n}\" % (q.upper(), pair[0]))"], simple=True),
     "missing_f_ml": dict(codes=["missing_f"], enable=["missing_f"], lines=["print(", "    \"{{p}} is missing {n}\",", "    q,", ")"], simple=False, fix=True),
     "unused_comp_ml": dict(codes=["unused_variable"], lines=["print([", "    None", "    for cv_{n} in range({n})", "])"], simple=False, fix=True),
